@@ -1172,6 +1172,12 @@ class Process(StateMachine, persistence.Savable, metaclass=ProcessStateMachineMe
 
         return True
 
+    def _do_continue(self, next_state: Optional[process_states.State] = None) -> bool:
+        """Carry on as if there had been no interruption, transitioning to the next state if there is one"""
+        if next_state is not None:
+            self.transition_to(next_state)
+        return True
+
     def _create_interrupt_action(self, exception: process_states.Interruption) -> futures.CancellableAction:
         """
         Create an interrupt action from the corresponding interrupt exception
@@ -1220,8 +1226,11 @@ class Process(StateMachine, persistence.Savable, metaclass=ProcessStateMachineMe
         """
         if not self.paused:
             if self._pausing is not None and self._interrupt_action is self._pausing:
-                # Not going to pause after all (a pause that is already being carried out cannot be withdrawn)
-                self._set_interrupt_action(None)
+                # Not going to pause after all (a pause that is already being carried out cannot be withdrawn).  The
+                # state may already have been interrupted for it, which cannot be taken back, so replace the pause by
+                # an action that simply carries on when that interruption comes through
+                carry_on = futures.CancellableAction(self._do_continue, cookie=self._pausing.cookie)
+                self._set_interrupt_action(carry_on)
                 self._pausing = None
             return True
 
